@@ -6,12 +6,13 @@ import (
 	"fmt"
 	"strings"
 
+	"github.com/Eyevinn/mp4ff/bits"
 	"github.com/Eyevinn/mp4ff/mp4"
 )
 
 func init() {
 	props["C12"] = &propDef{
-		rule: "cases = generated fragmented files: 1..3 tracks (video and/or audio, any order), 1..6 segments x 1..4 fragments, delimiters {none, styp per segment, top-level sidx (version 0/1, with/without a free box after it), mfra/tfra with the ISM flag, start-on-moof flag}, emsg boxes before fragments, zero/non-zero composition offset on the first sample; checks: grouping of moof/mdat pairs into segments, segment-mode re-encoding byte-identical, and after UpdateSidx(add/not, zero/non-zero EPT) + Encode the index tiles the media (each reference starts at its segment's first byte, ends at the end of the media, durations = summed durations of the reference track); non-trivial = distinct file with >= 2 segments",
+		rule: "cases = generated fragmented files: 1..3 tracks (video and/or audio, any order), 1..6 segments x 1..4 fragments, 8- or 16-byte mdat headers, decoded through the io.Reader or the slice-reader path, delimiters {none, styp per segment, top-level sidx (version 0/1, with/without a free box after it), mfra/tfra with the ISM flag, start-on-moof flag}, emsg boxes before fragments, zero/non-zero composition offset on the first sample; checks: grouping of moof/mdat pairs into segments, segment-mode re-encoding byte-identical, and after UpdateSidx(add/not, zero/non-zero EPT) + Encode the index tiles the media (each reference starts at its segment's first byte, ends at the end of the media, durations = summed durations of the reference track); non-trivial = distinct file with >= 2 segments",
 		gen:  genC12,
 		exec: execC12,
 	}
@@ -27,11 +28,13 @@ type ffSpec struct {
 	delim   string // none | styp | sidx0 | sidx1 | mfra
 	free    bool   // free box between sidx and the first segment (first_offset != 0)
 	flagSOM bool   // DecStartOnMoof
+	largeMd bool   // every fragment's mdat carries the 16-byte largesize header
+	sr      bool   // decode through the slice-reader path (DecodeFileSR)
 }
 
 func (s *ffSpec) line() string {
 	var p []string
-	p = append(p, fmt.Sprintf("ffile %s %s %s %s", strings.Join(s.media, ","), s.delim, b01(s.free), b01(s.flagSOM)))
+	p = append(p, fmt.Sprintf("ffile %s %s %s %s %s %s", strings.Join(s.media, ","), s.delim, b01(s.free), b01(s.flagSOM), b01(s.largeMd), b01(s.sr)))
 	for _, sg := range s.segs {
 		var fs []string
 		for _, f := range sg {
@@ -50,6 +53,9 @@ func parseFF(req string) *ffSpec {
 	parts := strings.Split(req, " | ")
 	f0 := strings.Fields(parts[0])
 	s := &ffSpec{media: strings.Split(f0[1], ","), delim: f0[2], free: f0[3] == "1", flagSOM: f0[4] == "1"}
+	if len(f0) >= 7 {
+		s.largeMd, s.sr = f0[5] == "1", f0[6] == "1"
+	}
 	for _, sp := range parts[1:] {
 		var sg []ffFrag
 		for _, fp := range strings.Split(sp, " ; ") {
@@ -162,6 +168,9 @@ func buildFF(s *ffSpec) (*ffBuilt, error) {
 				next[o.track] += uint64(o.dur)
 				cnt[o.track]++
 			}
+			if s.largeMd {
+				f.Mdat.LargeSize = true
+			}
 			var fb bytes.Buffer
 			if err := f.Encode(&fb); err != nil {
 				return nil, err
@@ -244,6 +253,9 @@ func decodeFF(s *ffSpec, b *ffBuilt) (*mp4.File, error) {
 	}
 	if flags != 0 {
 		opts = append(opts, mp4.WithDecodeFlags(flags))
+	}
+	if s.sr {
+		return mp4.DecodeFileSR(bits.NewFixedSliceReader(b.bytes), opts...)
 	}
 	return mp4.DecodeFile(bytes.NewReader(b.bytes), opts...)
 }
@@ -344,6 +356,8 @@ func genFF(c *Ctx) *ffSpec {
 	s.delim = []string{"none", "styp", "sidx0", "sidx1", "mfra", "styp"}[r.Intn(6)]
 	s.free = (s.delim == "sidx0" || s.delim == "sidx1") && r.Intn(3) == 0
 	s.flagSOM = r.Intn(5) == 0 && s.delim != "mfra"
+	s.largeMd = r.Intn(5) == 0
+	s.sr = r.Intn(3) == 0 && s.delim != "mfra" // the ISM flag needs a seekable reader
 	nseg := 1 + r.Intn(6)
 	firstCto := int32(0)
 	if r.Intn(2) == 0 {
